@@ -26,7 +26,7 @@ import consumers, c12, c04, walkers
 LEVEL = 'other'
 EXPLANATION = __doc__
 ASSUMPTIONS = ['FromStr implementations of the target types are the user\'s']
-FLOORS = {'R.registry': 17, 'V.value-slot': 9, 'L.lossless': 10, 'D.cluster-table': 4, 'B.boundaries': 5}
+FLOORS = {'R.registry': 17, 'V.value-slot': 9, 'L.lossless': 10, 'D.cluster-table': 4, 'B.boundaries': 6}
 
 LOSSY = [r'to_string_lossy$', r'from_utf8_lossy$', r'str::<impl str>::(trim\w*|to_lowercase|to_uppercase|to_ascii_lowercase|to_ascii_uppercase|replace|replacen)$', r'make_ascii_(lower|upper)case$']
 LOSSY_OK = {
@@ -46,6 +46,7 @@ def run(ctx):
         fs = ctx.facts(cfg)
         ctx.guard(registry, ctx, cfg, fs)
         ctx.guard(value_slot, ctx, cfg, fs)
+        ctx.guard(name_search, ctx, cfg, fs)
         ctx.guard(lossless, ctx, cfg, fs)
         ctx.guard(cluster_table, ctx, cfg, fs)
         ctx.guard(boundaries, ctx, cfg, fs)
@@ -128,6 +129,41 @@ def value_slot(ctx, cfg, fs):
                                 ok = bool(pt) and not [n for n in nxt if only_via_edge(b, sw.b, f_, n.bb)]
                                 why += '; the value is pushed exactly on the true edge of the same condition: %s' % ok
                     ctx.ob('V.value-slot', '%s:push-%s:%s' % (short(fn), r.what.split('::')[-1], '+'.join(desc)[:60]), ok, '%s pushes %s with attached-value bit %s: %s' % (short(fn), r.what.split('::')[-1], desc, why), where=c.where(), cfg=cfg)
+
+def name_search(ctx, cfg, fs):
+    """take_arg / take_flag: the search predicate is matches_arg(item, adjacent) with the caller's own `adjacent` restriction
+    handed through (take_flag: false), so an adjacent-restricted argument takes the FIRST occurrence that carries its value
+    rather than giving up when the first occurrence of the name does not; and the item description used for the registry
+    lists ALL short names of the NamedArg (aliases included)."""
+    for nm, want in (('take_arg', 'param'), ('take_flag', 'false')):
+        b = ctx.look(fs.body(consumers.CONSUMERS[nm][0]))
+        calls = [(x, c) for x in fs.family(b) for c in x.calls() if c.is_(r'^params::NamedArg::matches_arg$')]
+        got = set()
+        for x, c in calls:
+            for r in provenance(x, c.args[2], c.bb, 'term', through=None):
+                if r.kind == 'const': got.add('const %s' % r.what)
+                elif r.kind in ('param', 'upvar') and r.what == 'adjacent' or (r.kind in ('param', 'upvar') and 'bool' in str(r.what)): got.add('param')
+                elif r.kind in ('param', 'upvar'): got.add('param')
+                else: got.add('%s:%s' % (r.kind, r.what))
+        ok = len(calls) >= 1 and got == ({'param'} if want == 'param' else {'const False'})
+        ctx.ob('V.value-slot', '%s:search-predicate' % nm, ok, '%s searches with matches_arg(item, %s) (%d call(s)): the restriction is part of the search, not a test applied to the first name match afterwards' % (nm, sorted(got), len(calls)), where=b.where(), cfg=cfg)
+    # Item::Flag / Item::Argument list every short name
+    n = 0
+    for b in fs.bodies.values():
+        if re.search(r'as std::clone::Clone>::clone$', b.path):
+            continue
+        for i, k, st in b.stmts():
+            if st['k'] == 'assign' and st['rv']['k'] == 'agg' and st['rv'].get('adt') == 'item::Item' and st['rv'].get('variant') in ('Flag', 'Argument'):
+                names = st['rv'].get('field_names') or []
+                if 'shorts' not in names: continue
+                rs = provenance(b, st['rv']['fields'][names.index('shorts')], i, k)
+                ok = bool(rs) and all(r.kind in ('param', 'upvar') and r.path[-1:] == ['short'] for r in rs)
+                n += 1
+                ctx.ob('R.registry', '%s:Item::%s:shorts' % (short(outer(b.path)), st['rv']['variant']), ok,
+                       '%s builds Item::%s with shorts = %s (must be the whole `short` list of the NamedArg: aliases feed the cluster registry too)' % (
+                           short(b.path), st['rv']['variant'], sorted('%s:%s.%s' % (r.kind, r.what if r.kind != 'call' else short(r.call.name), '.'.join(r.path)) for r in rs)), where=b.where(i), cfg=cfg)
+    if n == 0:
+        raise Broken('no construction of Item::Flag / Item::Argument with a shorts field found')
 
 def next_pushes(b, c):
     out = []; seen = set(); st = [c.target] if c.target is not None else []
@@ -324,6 +360,28 @@ def boundaries(ctx, cfg, fs):
     ok = all(got[v] == [want[v]] for v in want)
     ctx.ob('B.boundaries', 'split_os_argument:width-table', ok, 'the width helper %s maps a first element to the length of the character it starts: %s (expected %s)' % (
         short(wb.path), {hex(k): v for k, v in got.items()}, {hex(k): v for k, v in want.items()}), where=wb.where(), cfg=cfg)
+    # "is this a single character?" must never be asked of a length in BYTES: no comparison (or match) of the byte length of
+    # a str / String / OsStr with the constants 1 or 2 anywhere in the tokenizer and its consumers
+    LEN = [r'str::<impl str>::len$', r'String::len$', r'OsStr::len$', r'OsString::len$']
+    hits = []
+    for x in fs.bodies.values():
+        if not re.search(r'^(args|arg|params|info)::|^<(args|arg|params)::', outer(x.path)):
+            continue
+        for i, k, st in x.stmts():
+            if st['k'] == 'assign' and st['rv']['k'] == 'bin' and st['rv']['op'] in ('Eq', 'Ne', 'Gt', 'Lt', 'Ge', 'Le'):
+                for (u, v_) in ((st['rv']['a'], st['rv']['b']), (st['rv']['b'], st['rv']['a'])):
+                    kc = op_const(v_)
+                    if kc and kc.get('v') in (1, 2):
+                        rs = provenance(x, u, i, k, through=None)
+                        if rs and all(r.kind == 'call' and r.call.is_(*LEN) for r in rs):
+                            hits.append(x.where(i))
+        for sw in switches(x):
+            if sw.kind == 'int' and any(v_ in (1, 2) for v_ in sw.edges if isinstance(v_, int)):
+                rs = provenance(x, x.term(sw.b)['op'], sw.b, 'term', through=None)
+                if rs and all(r.kind == 'call' and r.call.is_(*LEN) for r in rs):
+                    hits.append(x.where(sw.b))
+    ctx.ob('B.boundaries', 'tokenizer:no-byte-length-as-character-count', not hits,
+           'no test in args/arg/params compares the BYTE length of a string with 1 or 2 (a one-character name such as `-ñ` is two bytes): %s' % (hits or 'none found'), cfg=cfg)
     # the multi-character test compares with the same computed width
     cmp_ok = False
     for sw in switches(b):
